@@ -351,7 +351,7 @@ func c06(tier string) int {
 	total += c06Syscalls(run, u, gen, la, lb, hists)
 	for _, k := range []string{"last-acknowledged", "being-written"} {
 		if run.HistGet("state_after_restart", k) == 0 {
-			ev.Internal("vacuous: no crash point left the store at %s", k)
+			run.Vacuous("no crash point left the store at %s", k)
 		}
 	}
 	run.Set("evaluations", total)
